@@ -239,9 +239,9 @@ def eval_adverb_over(f, a, op, backend):
             return np_backend.multiply.reduce(a)
         elif safe_eq(op.a, '%') and hasattr(np_backend.divide,'reduce'):
             return np_backend.divide.reduce(a)
-        elif safe_eq(op.a, '&') and a.ndim == 1:
+        elif safe_eq(op.a, '&') and a.ndim == 1 and a.dtype != 'O':
             return np_backend.min(a)
-        elif safe_eq(op.a, '|') and a.ndim == 1:
+        elif safe_eq(op.a, '|') and a.ndim == 1 and a.dtype != 'O':
             return np_backend.max(a)
         elif safe_eq(op.a, ',') and np_backend.isarray(a) and a.dtype != 'O':
             return a if a.ndim == 1 else np_backend.concatenate(a, axis=0)
